@@ -72,6 +72,8 @@ def ref_depack_h264(payloads):
             else:
                 if cur is None:
                     raise ValueError("FU-A continuation without start")
+                if hdr != cur[0]:
+                    raise ValueError("FU-A fragments disagree on F/NRI/type: %02x vs %02x" % (hdr, cur[0]))
                 cur += p[2:]
             if e:
                 out.append(bytes(cur))
@@ -106,6 +108,8 @@ def ref_depack_h265(payloads):
             else:
                 if cur is None:
                     raise ValueError("FU continuation without start")
+                if ((p[0] & 0x81) | (ft << 1), p[1]) != (cur[0], cur[1]):
+                    raise ValueError("FU fragments disagree on the NAL header: %02x%02x vs %02x%02x" % ((p[0] & 0x81) | (ft << 1), p[1], cur[0], cur[1]))
                 cur += p[3:]
             if e:
                 out.append(bytes(cur))
@@ -415,6 +419,10 @@ def oracle_unpack(f, out):
     if len(o) != 5:
         return None
     nlist = 0 if o[1] == "-" else len(o[1].split("/"))
+    if sint(o[2]) != nlist:
+        # A.3: the list is exactly the set of received, not yet consumed packets; Size is its length
+        return (False, "RtpPacketList.Size=%d but the list holds %d packets (a drifting Size makes Full() lie: forced progress "
+                       "inside the window)" % (sint(o[2]), nlist))
     meta = UNPACK_EXPECT.get(" ".join(f))
     if meta is not None:
         got = [] if o[0] == "-" else [(num(x.split(":")[0]), tok_bytes(x.split(":")[1])) for x in o[0].split(",")]
